@@ -148,7 +148,7 @@ def instantiate(quants, ground, cap=24, extra_terms=()):
     return out
 
 
-def prepare(eng, ob, inst_rounds=2):
+def prepare(eng, ob, inst_rounds=2, level=0):
     hyps = list(ob.hyps) + list(eng.global_facts)
     neg = [] if ob.kind == "cover" else skolemize(z3.Not(ob.goal))
     forms = []
@@ -168,7 +168,7 @@ def prepare(eng, ob, inst_rounds=2):
     for f in neg:
         add(f, negs)
     allf = base + negs
-    extra = spec.saturate(eng, allf)
+    extra = spec.saturate(eng, allf, level=level)
     for e in extra:
         add(e, allf)
     quants = [f for f in allf if z3.is_quantifier(f) and f.is_forall()]
@@ -189,7 +189,7 @@ def prepare(eng, ob, inst_rounds=2):
                     fresh.append(g)
         if not fresh:
             break
-        extra2 = spec.saturate(eng, fresh, rounds=2)
+        extra2 = spec.saturate(eng, fresh, rounds=2, level=level)
         for e in extra2:
             for g in split_top(e):
                 if g.get_id() not in seen:
